@@ -434,7 +434,7 @@ def run_chunk(spec):
     observe.quiet_logs()
     res = Result()
     tier, ci = spec["tier"], spec["chunk"]
-    wd = Watchdog(res, 120.0)
+    wd = Watchdog(res, 400.0)
     rng = rng_for(spec["seed"], ID, ci, "scripts")
     jobs = []
     T = 8
